@@ -49,6 +49,131 @@ fn runs(hs: &[u64]) -> Vec<(u64, u64)> {
     out
 }
 
+/// Size-threshold stress (S10): one chain + one stored set with exactly `k` disjoint ranges, then searches whose
+/// cutoffs sit exactly at / one below / one above the header times of every range's first and last height
+/// ("edge"), deep inside ranges of >= 5 heights ("deep") and outside the chain ("out"); previous answers at the
+/// top of the admissible heights, at range ends, one past a range end (in the gap) and at range starts.
+/// `long_len > 0`: one of the ranges is that long; `min_span > 0`: the ranges are spread over at least that many
+/// heights (large heights, sparse store).  Those two kinds are "heavy" for the driver's O(n^3) spec pass and get
+/// a handful of ops only.
+fn big_instance(rng: &mut Rng, out: &mut Emitter, thorough: bool, k: u64, long_len: u64, min_span: u64) {
+    let heavy = long_len > 0 || min_span > 0;
+    let label = if long_len > 0 {
+        format!("long{long_len}")
+    } else if min_span > 0 {
+        format!("sparse{min_span}-{k}r")
+    } else {
+        format!("{k}r")
+    };
+    let long_at = rng.below(k);
+    let mid_at = rng.below(k);
+    let gap_hi = if min_span > 0 { (2 * min_span / k).max(2) } else { 4 };
+    let mut rs: Vec<(u64, u64)> = vec![];
+    let mut h = 1 + rng.below(3);
+    for i in 0..k {
+        let len = if long_len > 0 && i == long_at {
+            long_len
+        } else if !heavy && i == mid_at && k <= 65 {
+            rng.range(20, 40)
+        } else if k > 65 || rng.chance(1, 2) {
+            1
+        } else {
+            rng.range(1, 4)
+        };
+        rs.push((h, h + len - 1));
+        let gap = if min_span > 0 {
+            rng.range(gap_hi / 2, gap_hi)
+        } else if rng.chance(1, 2) {
+            1
+        } else {
+            rng.range(1, gap_hi)
+        };
+        h += len + gap.max(1);
+    }
+    let n = rs.last().unwrap().1 + rng.below(3);
+    let mut t = rng.range(0, 50);
+    let mut times = vec![];
+    for _ in 0..n {
+        t += if rng.chance(1, 3) { 1 } else { rng.range(1, 9) };
+        times.push(t);
+    }
+    let time = |h: u64| times[(h - 1) as usize];
+    out.op(format!("chain times={}", natl(&times)), &format!("chain/big-{label}"), false);
+    out.op(format!("store rs={}", show_ranges(&rs)), &format!("store/big-{label}"), false);
+
+    // cutoffs
+    let mut cands: Vec<(u64, &'static str)> = vec![];
+    let mut sel: Vec<usize> = (0..rs.len()).collect();
+    if heavy || k > 65 || (!thorough && k > 33) {
+        // (the driver's spec pass costs ~4 ms per op at 65 ranges, ~60 ms at 257: sample the ranges there)
+        rng.shuffle(&mut sel);
+        sel.truncate(if heavy { 2 } else if thorough { 40 } else { 30 });
+        if long_len > 0 && !sel.contains(&(long_at as usize)) {
+            sel.push(long_at as usize);
+        }
+        let top = rs.len() - 1;
+        if !sel.contains(&top) {
+            sel.push(top);
+        }
+    }
+    for &i in &sel {
+        let (s, e) = rs[i];
+        for d in [0u64, 1, 2] {
+            cands.push(((time(s) + d).saturating_sub(1), "edge"));
+            if e != s {
+                cands.push(((time(e) + d).saturating_sub(1), "edge"));
+            }
+            if e - s + 1 >= 5 {
+                let m = if rng.bool() { (s + e) / 2 } else { rng.range(s + 2, e - 2) };
+                cands.push(((time(m) + d).saturating_sub(1), "deep"));
+            }
+        }
+    }
+    cands.push((0, "out"));
+    cands.push((t + 5, "out"));
+    for (cutoff, cls) in cands {
+        let adm_max = times.iter().filter(|&&x| x <= cutoff).count() as u64;
+        // admissible previous answers around the range structure below the edge
+        let mut ps: Vec<u64> = vec![adm_max, adm_max.saturating_sub(1), 1];
+        let below: Vec<&(u64, u64)> = rs.iter().filter(|r| r.0 <= adm_max).collect();
+        if let Some(&&(s, e)) = below.last() {
+            ps.extend([s, e.min(adm_max), (e + 1).min(adm_max), s.saturating_sub(1)]);
+        }
+        if below.len() >= 2 {
+            let (s, e) = *below[below.len() - 2];
+            ps.extend([s, e, e + 1]);
+        }
+        ps.retain(|&p| p >= 1 && p <= adm_max);
+        let prev = if ps.is_empty() { None } else { Some(*rng.pick(&ps)) };
+        let kinds: Vec<u64> = if thorough && !heavy {
+            vec![0, 1, 2, 3]
+        } else if heavy {
+            vec![rng.below(4)]
+        } else {
+            let a = rng.below(4);
+            vec![a, (a + 1 + rng.below(3)) % 4]
+        };
+        for kind in kinds {
+            match (kind, prev) {
+                (0, _) => out.op(format!("slow cutoff={cutoff}"), &format!("big/{label}/{cls}-slow"), true),
+                (1, _) | (_, None) => {
+                    out.op(format!("find cutoff={cutoff} prev=-"), &format!("big/{label}/{cls}-find-none"), true)
+                }
+                (2, Some(p)) => {
+                    out.op(format!("find cutoff={cutoff} prev={p}"), &format!("big/{label}/{cls}-find-adm"), true)
+                }
+                (_, Some(p)) => {
+                    out.op(format!("fast cutoff={cutoff} prev={p}"), &format!("big/{label}/{cls}-fast-adm"), true)
+                }
+            }
+        }
+        if rng.chance(1, 12) && adm_max < n {
+            let p = rng.range(adm_max + 1, n + 2);
+            out.op(format!("find cutoff={cutoff} prev={p}"), &format!("big/{label}/{cls}-find-prev-above"), false);
+        }
+    }
+}
+
 struct C36 {
     rt: tokio::runtime::Runtime,
     chain: Vec<ExtendedHeader>,
@@ -99,7 +224,14 @@ impl Prop for C36 {
          quick) x every cutoff 5,10,..,105 (between and exactly at header times) x previous answer none and every \
          admissible height (time <= cutoff, stored or not), plus inadmissible / 0 / beyond-head previous answers; \
          (2) random chains up to 60 headers with random increasing times, random stored sets with gaps, cutoffs at, \
-         just below and just above header times; (3) stale `stored_headers` snapshots (NotFound path). \
+         just below and just above header times; (3) stale `stored_headers` snapshots (NotFound path); \
+         (4) size-threshold stress (tags big/..): stored sets with exactly 9, 17, 33 and 65 disjoint ranges (thorough: \
+         also 8, 16, 32, 64, 129, 257; several instances each) incl. one range of 20..40 heights, cutoffs exactly at / \
+         one below / one above the header time of every range's first and last height (a sample of 30-40 ranges when \
+         there are > 33 in quick / > 65 in thorough) and deep inside ranges, \
+         previous answers at the top of the admissible heights, at range ends, one past a range end (gap) and at \
+         range starts; one stored range of 300 heights among 8 small ones (thorough: also 513 and 2100 long); a \
+         sparse 17-range store spread over a chain of >= 2100 headers (thorough: also 33 ranges over >= 4200). \
          non-trivial = a search op on a non-empty store whose previous answer is admissible (none, or a height >= 1 \
          whose own time is <= cutoff)"
     }
@@ -222,6 +354,31 @@ impl Prop for C36 {
                     out.op(format!("slow cutoff={cutoff} snap=1-{n}"), "slow/stale-snap", false);
                 }
             }
+        }
+        // (4) size-threshold stress (S10): stored sets with MANY disjoint ranges and long ranges
+        out.op("reset", "reset", false);
+        let classes: Vec<(u64, u64)> = if thorough {
+            // (number of ranges, instances)
+            vec![(8, 3), (9, 6), (16, 3), (17, 6), (32, 3), (33, 6), (64, 2), (65, 5), (129, 2), (257, 1)]
+        } else {
+            vec![(9, 1), (17, 1), (33, 1), (65, 1)]
+        };
+        for (k, insts) in classes {
+            for _ in 0..insts {
+                big_instance(rng, out, thorough, k, 0, 0);
+            }
+        }
+        // one long contiguous range (deep-inside cutoffs) among 8 small ones; the driver's spec pass is O(n^3)
+        // in the number of stored heights, so the long instances get only a handful of ops
+        big_instance(rng, out, thorough, 9, 300, 0);
+        if thorough {
+            big_instance(rng, out, thorough, 9, 513, 0);
+            big_instance(rng, out, thorough, 3, 2100, 0);
+        }
+        // large heights: a sparse stored set (17 / 33 ranges) in a chain of 2100+ headers
+        big_instance(rng, out, thorough, 17, 0, 2100);
+        if thorough {
+            big_instance(rng, out, thorough, 33, 0, 4200);
         }
     }
 
